@@ -83,7 +83,7 @@ CHECKS = {
                 note="derive is always on; schema implies std; the no_std build is linked into a std binary."),
     "C19": dict(cat="exploration", design="§4 C19", engine="gen/schema.py (vengine --features schema + python jsonschema)",
                 technique="exhaustive enumeration of the registry value space serialised under the schema feature and validated against schema_for!(PortableRegistry) with an independent Draft-7 validator, with liveness controls",
-                text="~415k entries (quick) / several million (thorough) of regspace serialised by the library's own serde impls are validated entry by entry, plus whole documents (the empty registry produced three ways, every U1 registry, retain results); six known-invalid control documents must be rejected or the run is a machinery error.",
+                text="~420k entries (quick) / several million (thorough) of regspace serialised by the library's own serde impls are validated entry by entry in two feature configurations (schema with and without bit-vec), plus whole documents (the empty registry produced three ways, every U1 registry, retain results); six known-invalid control documents must be rejected or the run is a machinery error.",
                 note="python jsonschema Draft7Validator is trusted; schemars 0.8 generates the schema."),
     "C20": dict(cat="exploration", design="§4 C20, §3.7", engine="gen/negative.py (rustc per program)",
                 technique="exhaustive enumeration of a negative grammar: each ill-formed construction in every builder position / attribute combination compiled on its own by rustc, paired with a well-formed twin",
